@@ -10,7 +10,9 @@ from harness.runner import Result
 PROPERTY = "C12"
 LEVEL = "exploration"
 RULE = (
-    "case = (law in {Simo1986, Harsch2021}, stiffness vectors Ei, Fi log-uniform in [1e-2,1e4], strains B_Gamma, "
+    "case = (law in {Simo1986, Harsch2021}, stiffness vectors Ei, Fi log-uniform in [1e-2,1e4] as float arrays or, in one "
+    "case of six, small integers passed as integer-typed arrays (as the repository's scripts do); 0-2 earlier "
+    "evaluations of the same law object at other reference strains (one object serves all quadrature points); strains B_Gamma, "
     "B_Gamma0, B_Kappa, B_Kappa0 with log-uniform norms over four decades, |B_Gamma| >= 1e-2). Forces/couples are "
     "compared with Richardson differences of the strain energy, tangents with differences of forces/couples, the "
     "complementary energy with the Legendre identity. Non-trivial: | |B_Gamma0| - 1 | > 0.05 and B_Gamma not "
@@ -33,10 +35,14 @@ LEVEL_NOTE = "trusted: the law's own potential() as primal reference; numpy"
 
 @st.composite
 def _case(draw):
+    # stiffnesses as the repository's scripts pass them: float arrays, or integer-typed arrays like np.array([5, 1, 1])
+    ints = draw(st.integers(0, 5)) == 0
     return {
         "law": draw(st.sampled_from(["Simo1986", "Harsch2021"])),
-        "Ei": [draw(gen.log_uniform(-2, 4)) for _ in range(3)],
-        "Fi": [draw(gen.log_uniform(-2, 4)) for _ in range(3)],
+        "Ei": [draw(st.integers(1, 20)) for _ in range(3)] if ints else [draw(gen.log_uniform(-2, 4)) for _ in range(3)],
+        "Fi": [draw(st.integers(1, 20)) for _ in range(3)] if ints and draw(st.booleans()) else [draw(gen.log_uniform(-2, 4)) for _ in range(3)],
+        # reference strains at which the same law object was evaluated before (one object serves all quadrature points)
+        "warm": [draw(gen.vec3(-1, 1, allow_zero=False)) for _ in range(draw(st.integers(0, 2)))],
         "G": draw(gen.vec3(-2, 2, allow_zero=False)),
         "G0": draw(st.one_of(gen.vec3(-2, 2, allow_zero=False), st.just([1.0, 0.0, 0.0]))),
         "K": draw(gen.vec3(-2, 2)),
@@ -60,10 +66,14 @@ def check(spec):
     from cardillo.rods import _material_models as mm
 
     res = Result()
-    Ei = np.array(spec["Ei"])
+    Ei = np.array(spec["Ei"])  # integer lists give integer-typed arrays, as in the repository's scripts
     Fi = np.array(spec["Fi"])
     law = getattr(mm, spec["law"])(Ei, Fi)
+    Ei, Fi = Ei.astype(float), Fi.astype(float)
     G, G0, K, K0 = (np.array(spec[k], dtype=float) for k in ("G", "G0", "K", "K0"))
+    for Gw in spec.get("warm", []):
+        Gw = np.array(Gw, dtype=float)
+        law.potential(G, Gw, K, K0), law.B_n(G, Gw, K, K0), law.B_m(G, Gw, K, K0), law.B_n_B_Gamma(G, Gw, K, K0)
     nG, nG0 = float(np.linalg.norm(G)), float(np.linalg.norm(G0))
     feats = {"law": spec["law"], "normG0": nG0}
     site = spec["law"]
@@ -132,4 +142,5 @@ def check(spec):
     res.nontrivial = abs(nG0 - 1.0) > 0.05 and cosang < 0.999
     res.label(spec["law"])
     res.label("|G0|!=1" if abs(nG0 - 1.0) > 0.05 else "|G0|=1")
+    res.label("stiffness:int_array" if isinstance(spec["Ei"][0], int) else "stiffness:float_array", f"earlier_reference_strains:{len(spec.get('warm', []))}")
     return res
